@@ -537,7 +537,13 @@ class Evaluator:
         if isinstance(f, ClassVal):
             return self.instantiate(f, args, kwargs)
         if isinstance(f, _NativeFn):
-            return f.fn(*args, **kwargs)
+            try:
+                return f.fn(*args, **kwargs)
+            except (Raised, Undecided):
+                raise
+            except (ValueError, KeyError, IndexError, AttributeError, ZeroDivisionError) as e:
+                # a builtin method of a folded str/list/dict value raised: that is the analysed code's exception
+                raise Raised(type(e).__name__, str(e), node)
         if isinstance(f, ExtVal):
             return self.call_ext(f, args, kwargs, node)
         if isinstance(f, OpaqueObj):
